@@ -131,7 +131,7 @@ def _rename_facts(inst: str, mapping: dict) -> str:
     return " ".join(out)
 
 
-def _syntactic(case: Case, src_text: str, result_text: str, hook_unpool: bool = True) -> Optional[tuple[str, str]]:
+def _syntactic(case: Case, src_text: str, result_text: str, opt: Any = None) -> Optional[tuple[str, str]]:
     """clause (c): exact interface checks"""
     src = oracle.try_parse(src_text) or []
     res = oracle.try_parse(result_text) or []
@@ -152,9 +152,18 @@ def _syntactic(case: Case, src_text: str, result_text: str, hook_unpool: bool = 
     clash = new_heads & declared
     if clash:
         return "invented_predicate_collides_with_declaration", str(sorted(clash))
-    used_not_defined = astutil.rule_vocabulary(res) - astutil.defined(res) - voc - declared
-    if used_not_defined:
-        return "invented_predicate_without_definition", str(sorted(used_not_defined))
+    # a pass that invents a predicate defines it in the same application.  Judged per traced pass application, not on the final
+    # text: cleanup rightly deletes the defining rule of an invented predicate whose body can never hold and leaves the (dead)
+    # user behind, and unused renames predicates - neither invents anything, both are skipped
+    for step in opt.trace.steps if opt is not None else []:
+        if not step.fired or step.name in ("cleanup", "unused"):
+            continue
+        before, after = oracle.try_parse(step.before), oracle.try_parse(step.after)
+        if before is None or after is None:
+            continue
+        used_not_defined = astutil.rule_vocabulary(after) - astutil.defined(after) - astutil.vocabulary(before) - voc - declared
+        if used_not_defined:
+            return "invented_predicate_without_definition", f"{sorted(used_not_defined)} after {step.name}"
     src_def = astutil.defined(src)
     for sig in sorted(tuple(s) for s in (case.IN if case.IN != "auto" else [])):
         if sig not in src_def and sig in astutil.defined(res):
@@ -202,7 +211,7 @@ def evaluate(case: Case, tier: str) -> Outcome:
         return base
     if base.status == "discard":
         return base
-    syn = _syntactic(case, case.src, base.result_text) if base.result_text else None
+    syn = _syntactic(case, case.src, base.result_text, base.opt) if base.result_text else None
     if base.status == "fail":
         if syn is not None and syn[0] == "invented_predicate_without_definition":
             base.failure = {"kind": syn[0], "detail": syn[1], "instance": "", "attribution": {"pass": "interface", "before": case.src, "after": base.result_text}}
@@ -239,7 +248,7 @@ def evaluate(case: Case, tier: str) -> Outcome:
             out.failure["variant_instances"] = vcase.instances
             out.failure["kind"] = kind + ":" + out.failure["kind"]
         elif out.status == "pass":
-            syn = _syntactic(vcase, vcase.src, out.result_text)
+            syn = _syntactic(vcase, vcase.src, out.result_text, out.opt)
             shaped = kind != "rename" or bool(NGO_SHAPED.search(vcase.src))
             fired = out.opt is not None and out.opt.trace.fired_names()
             out.nontrivial = [case.config_key() + kind] if (fired and shaped and out.comparisons) else []
